@@ -742,7 +742,7 @@ func (t *Term) String() string {
 
 // Eval evaluates a term under an assignment of variables (for witnesses).
 // UF applications are resolved by uf (may be nil -> panic).
-func (t *Term) Eval(env map[string]*big.Int, uf func(name string, args []*big.Int, w int) *big.Int, memo map[*Term]*big.Int) *big.Int {
+func (t *Term) Eval(env map[string]*big.Int, uf func(app *Term, args []*big.Int) *big.Int, memo map[*Term]*big.Int) *big.Int {
 	if t.op == OConst {
 		return t.bigVal()
 	}
@@ -814,7 +814,7 @@ func (t *Term) Eval(env map[string]*big.Int, uf func(name string, args []*big.In
 		for i, a := range t.args {
 			args[i] = ev(a)
 		}
-		r = uf(t.name, args, t.w)
+		r = uf(t, args)
 	default:
 		x, y := ev(t.a), ev(t.b)
 		if t.w <= 64 {
